@@ -47,4 +47,5 @@ registry! {
     c19::C19,
     c23::C23,
     c24::C24,
+    c25::C25,
 }
